@@ -15,6 +15,7 @@ func init() {
 	// C19 = the arithmetic of types/math (Engine B, bounded-exhaustive) + the conversion to integer coins
 	// at its use sites in the marketplace (Engine A): every fill over the fee-rate x order-history seeds.
 	Registry["C19"] = func(tier string) int {
+		pure.C19Prepare() // the arithmetic baseline, before any handler has run in this process
 		okLayout := true
 		rc := engineAWith("C19", tier, []scen.Spec{scen.C07Spec(tier != "thorough")},
 			func() []explore.Monitor { return []explore.Monitor{&mon.C19Coins{FeePool: scen.FeePool.String()}} },
